@@ -6,6 +6,7 @@ import (
 	"fmt"
 	"os"
 	"path/filepath"
+	"reflect"
 
 	"github.com/200sc/bebop"
 )
@@ -86,7 +87,7 @@ func formatFile(path string) error {
 	if err != nil {
 		return fmt.Errorf("Failed to open path: %w", err)
 	}
-	_, _, err = bebop.ReadFile(f)
+	original, _, err := bebop.ReadFile(f)
 	if err != nil {
 		f.Close()
 		return fmt.Errorf("Failed to read file: %w", err)
@@ -105,6 +106,14 @@ func formatFile(path string) error {
 	f.Close()
 
 	if *writeInPlace {
+		// never replace a schema with text that does not mean the same
+		formatted, _, err := bebop.ReadFile(bytes.NewReader(out.Bytes()))
+		if err != nil {
+			return fmt.Errorf("Formatted %s does not parse, file left untouched: %w", path, err)
+		}
+		if !sameSchema(original, formatted) {
+			return fmt.Errorf("Formatting %s would change the schema, file left untouched", path)
+		}
 		if err := writeFileAtomic(path, out.Bytes()); err != nil {
 			return fmt.Errorf("Failed to write to output: %w", err)
 		}
@@ -140,4 +149,81 @@ func writeFileAtomic(path string, data []byte) error {
 		os.Remove(tmpName)
 	}
 	return err
+}
+
+// sameSchema reports whether two files define the same schema, ignoring doc comments
+// (and the tags derived from them), which formatting is allowed to move.
+func sameSchema(a, b bebop.File) bool {
+	return reflect.DeepEqual(stripComments(a), stripComments(b))
+}
+
+func stripFields(fields []bebop.Field) []bebop.Field {
+	out := make([]bebop.Field, len(fields))
+	for i, fd := range fields {
+		fd.Comment = ""
+		fd.Tags = nil
+		out[i] = fd
+	}
+	return out
+}
+
+func stripStruct(st bebop.Struct) bebop.Struct {
+	st.Comment = ""
+	st.Fields = stripFields(st.Fields)
+	return st
+}
+
+func stripMessage(msg bebop.Message) bebop.Message {
+	msg.Comment = ""
+	fields := make(map[uint8]bebop.Field, len(msg.Fields))
+	for i, fd := range msg.Fields {
+		fd.Comment = ""
+		fd.Tags = nil
+		fields[i] = fd
+	}
+	msg.Fields = fields
+	return msg
+}
+
+func stripComments(f bebop.File) bebop.File {
+	out := bebop.File{GoPackage: f.GoPackage, Imports: append([]string{}, f.Imports...)}
+	for _, st := range f.Structs {
+		out.Structs = append(out.Structs, stripStruct(st))
+	}
+	for _, msg := range f.Messages {
+		out.Messages = append(out.Messages, stripMessage(msg))
+	}
+	for _, en := range f.Enums {
+		en.Comment = ""
+		opts := make([]bebop.EnumOption, len(en.Options))
+		for i, opt := range en.Options {
+			opt.Comment = ""
+			opts[i] = opt
+		}
+		en.Options = opts
+		out.Enums = append(out.Enums, en)
+	}
+	for _, un := range f.Unions {
+		un.Comment = ""
+		fields := make(map[uint8]bebop.UnionField, len(un.Fields))
+		for i, ufd := range un.Fields {
+			ufd.Tags = nil
+			if ufd.Struct != nil {
+				st := stripStruct(*ufd.Struct)
+				ufd.Struct = &st
+			}
+			if ufd.Message != nil {
+				msg := stripMessage(*ufd.Message)
+				ufd.Message = &msg
+			}
+			fields[i] = ufd
+		}
+		un.Fields = fields
+		out.Unions = append(out.Unions, un)
+	}
+	for _, c := range f.Consts {
+		c.Comment = ""
+		out.Consts = append(out.Consts, c)
+	}
+	return out
 }
